@@ -1549,3 +1549,17 @@ pub fn run_bloat(ctx: &Ctx) -> i32 {
     }
     ev.finish()
 }
+
+// ---------------------------------------------------------------------------
+// C08 leg: what a flush removes, seen through a pipeline (socket level)
+
+pub const RULE_FLUSHORDER: &str = "a case is one (store size, flush | flushq, runtime flavour): a dedicated server is prefilled, one segment carries `get old, flush, get old, getk old, set new, add old, incr new, get new, noop`; every item stored before the flush must be unretrievable behind it, every item stored after it must be unaffected by it - in the pipeline's own responses and 30 / 300 ms later through another connection; non-trivial always; distinct by the case tuple";
+
+pub fn run_flush_order(ctx: &Ctx) -> i32 {
+    install_quiet_panic_hook();
+    let mut ev0 = Evidence::new(ctx, "exploration", RULE_FLUSHORDER);
+    ev0.assumptions = vec!["in-process MemcacheTcpServer on loopback; store prefilled through MemcStore's own front door".into()];
+    let shared = Mutex::new(ev0);
+    flush_order_scenarios(ctx, &shared);
+    shared.into_inner().unwrap().finish()
+}
